@@ -447,7 +447,11 @@ Realize(out, o) ==
 RealizeArgs(out, o, acc) ==
     LET x == GetAt(out, o) IN
     IF x.op = "FUNCTION_END" THEN [args |-> acc, ell |-> x.arg % 2 = 1]
-    ELSE RealizeArgs(out, o + 1, Append(acc, Realize(out, o)))
+    ELSE LET a == Realize(out, o)
+             \* realize_c_type() refuses a function type (unexpected_fn_type); new_function_type
+             \* (_cffi_backend.c) replaces an array argument by the pointer to its item
+             b == IF a.k = "fn" THEN [k |-> "bad"] ELSE IF a.k = "arr" THEN Ptr(a.t) ELSE a
+         IN RealizeArgs(out, o + 1, Append(acc, b))
 
 (* parse_c_type + realize, as seen through ffi.typeof: same result classes as Read *)
 ParseC(s) ==
@@ -491,12 +495,16 @@ Base == {P(n) : n \in BasePrims} \cup {Void} \cup BaseAggs
 Lens == IF Profile \in {"small", "mid"} THEN {Open, 16} ELSE {Open, 3, 16, 2}
 ArgLists == IF Profile \in {"small", "mid"}
             THEN {<< << >>, FALSE >>, << <<P("int")>>, FALSE >>, << <<P("int")>>, TRUE >>,
-                  << <<Ptr(P("char")), Agg("struct", "s1")>>, FALSE >>}
+                  << <<Ptr(P("char")), Agg("struct", "s1")>>, FALSE >>,
+                  << <<Ptr(P("int")), Ptr(Arr(P("int"), 5))>>, TRUE >>,          \* Param(vec_t), Param(mat_t)
+                  << <<Ptr(Fn(P("int"), <<P("int")>>, FALSE))>>, FALSE >>}       \* Param(func_t)
             ELSE {<< << >>, FALSE >>, << <<P("int")>>, FALSE >>, << <<P("int")>>, TRUE >>,
                   << <<Ptr(P("char")), Agg("struct", "s1")>>, FALSE >>,
                   << <<P("unsigned long"), Ptr(Void)>>, TRUE >>,
                   << <<Ptr(Fn(P("int"), <<P("int")>>, FALSE))>>, FALSE >>,
-                  << <<Ptr(Ptr(P("int"))), P("double")>>, FALSE >>}
+                  << <<Ptr(Ptr(P("int"))), P("double")>>, FALSE >>,
+                  << <<P("long"), Ptr(Arr(P("int"), 5))>>, TRUE >>,
+                  << <<Ptr(P("int"))>>, FALSE >>}
 Universe == Terms(Base, Lens, ArgLists, Depth)
 
 -----------------------------------------------------------------------------
@@ -530,6 +538,24 @@ UndeclaredTag(s) == \E i \in 1..Len(s) : /\ s[i] \in {"struct", "union", "enum"}
 TopLevelComma(s) == \E i \in 1..Len(s) : s[i] = "," /\ NestAt(s, i, 1) = 0
 (* '...' anywhere but at the end of a parameter list after a comma: it becomes an identifier *)
 StrayEllipsis(s) == \E i \in 1..Len(s) : s[i] = "..." /\ ~(At(s, i - 1) = "," /\ At(s, i + 1) = ")" /\ NestAt(s, i, 1) > 0)
+(* a parameter written as the typedef name of a FUNCTION type (func_t as a parameter): C adjusts it to
+   a pointer to function, so does the in-line FFI; realize_c_type refuses it *)
+FnTypedefNames == {n \in DOMAIN Typedefs : Typedefs[n].k = "fn"}
+FnTypedefParam(s) == \E i \in 1..Len(s) :
+                        /\ s[i] \in FnTypedefNames
+                        /\ (\E j1 \in 1..(i - 1) : s[j1] \in {"(", ","} /\ \A l1 \in (j1 + 1)..(i - 1) : s[l1] \in Quals)
+                        /\ (\E j2 \in (i + 1)..Len(s) : s[j2] \in {")", ","} /\
+                                \A l2 \in (i + 1)..(j2 - 1) : s[l2] \in Quals \/ IsDeclIdent(s[l2]))
+(* '(...)' as a whole parameter list: not C (before C23); the C parser accepts it *)
+OnlyEllipsis(s) == \E i \in 1..Len(s) : s[i] = "(" /\ At(s, i + 1) = "..." /\ At(s, i + 2) = ")"
+(* a qualified void as the only parameter ('(const void)'): the in-line FFI takes it for '(void)' *)
+QualVoidParam(s) == \E i \in 1..Len(s) :
+                       /\ s[i] = "("
+                       /\ \E j3 \in (i + 1)..Len(s) :
+                             /\ s[j3] = ")"
+                             /\ (\A l3 \in (i + 1)..(j3 - 1) : s[l3] \in Quals \cup {"void"})
+                             /\ (\E l4 \in (i + 1)..(j3 - 1) : s[l4] = "void")
+                             /\ (\E l5 \in (i + 1)..(j3 - 1) : s[l5] \in Quals)
 (* a specifier multiset that C does not allow ('signed unsigned char', 'signed void') *)
 RECURSIVE CountSpecs(_, _, _)
 CountSpecs(r, i, c) == IF i > Len(r) THEN c ELSE CountSpecs(r, i + 1, [c EXCEPT ![FieldOf(r[i])] = @ + 1])
@@ -544,6 +570,9 @@ ClassOf(s) == (IF QualInsideSpecs(s) THEN {"qual-inside-specifiers"} ELSE {}) \c
               (IF UndeclaredTag(s) THEN {"undeclared-tag"} ELSE {}) \cup
               (IF TopLevelComma(s) THEN {"top-level-comma"} ELSE {}) \cup
               (IF StrayEllipsis(s) THEN {"stray-ellipsis"} ELSE {}) \cup
-              (IF SpecifierConflict(s) THEN {"specifier-conflict"} ELSE {})
+              (IF SpecifierConflict(s) THEN {"specifier-conflict"} ELSE {}) \cup
+              (IF FnTypedefParam(s) THEN {"fn-typedef-param"} ELSE {}) \cup
+              (IF OnlyEllipsis(s) THEN {"only-ellipsis"} ELSE {}) \cup
+              (IF QualVoidParam(s) THEN {"qualified-void-param"} ELSE {})
 
 =============================================================================
